@@ -1,12 +1,16 @@
 (* C08 - connection behaviour is independent of segmentation and completion timing.
    After the repair of receive_packet (the frame being received lives in the connection, not in
    a future that select! drops) the byte-level behaviour (M2, Conn/Sem2.v) IS the frame-level
-   behaviour M1 applied to the reader's output: C08_refines, for every configuration, environment
-   and schedule - however the client's bytes are cut into segments, wherever keep-alive ticks and
-   completions of raced adapter calls fall - under two decidable conditions on the schedule, neither
-   of which can be dropped (Conn/Refine2Defs.v: unsorted_in_frame_differs, stops_in_frame_differs):
-   byte times do not decrease inside a frame, and the stream does not stop inside a frame without
-   an end of stream (without the second one: equality up to the instant of a final hang).
+   behaviour M1 applied to the reader's output, for every configuration, environment and schedule -
+   however the client's bytes are cut into segments, wherever keep-alive ticks and completions of
+   raced adapter calls fall:
+   - C08_refines_all_mod_hang: NO condition at all - equal runs on the schedule as the handler's
+     clock sees it ([mono]: running maximum of the arrival times), up to the instant at which a
+     handler that waits for ever is declared hung; C08_each_frame_once: NO condition at all;
+   - C08_refines: exact equality on the reader's output of the schedule itself, under two
+     decidable conditions neither of which can be dropped (C08_conditions_needed): byte times do
+     not decrease inside a frame, and the stream does not stop inside a frame without an end of
+     stream.
    The handler before the repair (Conn/Sem2Old.v) did NOT have this property: the witnesses of the
    classes K1 (a raced adapter call completes inside a frame) and K4 (a keep-alive tick falls due
    inside a frame) are kept as C08_old_*.
@@ -67,18 +71,44 @@ Theorem C08_refines_unless_hang : forall o cfg e (s : segs),
   run2 o cfg e s = run1 o cfg e (frames_of (cf_max_len cfg) s).
 Proof. exact refines_unless_hang. Qed.
 
-(* every frame is consumed at most once, in order and complete: the frames the byte-level
-   handler consumes are a prefix of the frames the reader cuts out of the stream *)
-Theorem C08_each_frame_once : forall o cfg e (s : segs),
-  frame_sorted (cf_max_len cfg) s = true ->
-  is_prefix (recvs (run2 o cfg e s)) (in_frames (frames_of (cf_max_len cfg) s)).
-Proof. exact each_frame_once. Qed.
+(* ---- no condition on the times ----
+   The handler sees arrival times only through its own clock, so it cannot tell a schedule from
+   its monotone version [mono s] (Conn/Refine2Defs.v: every segment stamped with the running maximum
+   of the times so far, starting at 0; segments without bytes dropped; [mono s] is sorted, and is
+   [s] when [s] is sorted, starts at a time >= 0 and has no empty segment). *)
+Theorem C08_run2_mono : forall o cfg e (s : segs), run2 o cfg e (mono s) = run2 o cfg e s.
+Proof. exact run2_mono. Qed.
 
-(* every theorem about all frame-level runs transfers to the byte-level runs *)
+Theorem C08_refines_all : forall o cfg e (s : segs),
+  ends_clean (cf_max_len cfg) s = true ->
+  run2 o cfg e s = run1 o cfg e (frames_of (cf_max_len cfg) (mono s)).
+Proof. exact refines_all. Qed.
+
+Theorem C08_refines_all_mod_hang : forall o cfg e (s : segs),
+  unhang (run2 o cfg e s) = unhang (run1 o cfg e (frames_of (cf_max_len cfg) (mono s))).
+Proof. exact refines_all_mod_hang. Qed.
+
+Theorem C08_refines_all_unless_hang : forall o cfg e (s : segs),
+  hangs (run1 o cfg e (frames_of (cf_max_len cfg) (mono s))) = false ->
+  run2 o cfg e s = run1 o cfg e (frames_of (cf_max_len cfg) (mono s)).
+Proof. exact refines_all_unless_hang. Qed.
+
+(* for EVERY schedule, every frame is consumed at most once, in order and complete: the frames the
+   byte-level handler consumes are a prefix of the frames the reader cuts out of the stream *)
+Theorem C08_each_frame_once : forall o cfg e (s : segs),
+  is_prefix (recvs (run2 o cfg e s)) (in_frames (frames_of (cf_max_len cfg) s)).
+Proof. exact each_frame_once_all. Qed.
+
+(* every theorem about all frame-level runs transfers to the byte-level runs: to all of them if it
+   does not depend on the instant of a hang, otherwise to those whose stream does not stop inside a frame *)
 Theorem C08_transfer : forall (Q : trace -> Prop) o cfg e,
   (forall ib, Q (run1 o cfg e ib)) ->
-  forall s : segs, frame_sorted (cf_max_len cfg) s = true -> ends_clean (cf_max_len cfg) s = true -> Q (run2 o cfg e s).
-Proof. exact transfer. Qed.
+  forall s : segs, ends_clean (cf_max_len cfg) s = true -> Q (run2 o cfg e s).
+Proof. exact transfer_all. Qed.
+
+Theorem C08_transfer_mod_hang : forall (Q : trace -> Prop) o cfg e,
+  (forall ib, Q (unhang (run1 o cfg e ib))) -> forall s : segs, Q (unhang (run2 o cfg e s)).
+Proof. exact transfer_all_mod_hang. Qed.
 
 (* non-vacuity: the schedules that broke the old handler (below) satisfy the conditions and now
    give equal runs; the split Keep Alive echo of K1 ends in a Transfer *)
@@ -107,6 +137,13 @@ Proof.
   - destruct stops_in_frame_differs as (H1 & H2 & H3 & H4 & _). split; [exact H1|]. split; [exact H2|].
     intros E. rewrite E, H4 in H3. discriminate H3.
 Qed.
+
+(* non-vacuity of the unconditional form: times decreasing inside a frame *)
+Example C08_mono_nonvacuous :
+  mono unsorted_in_frame <> unsorted_in_frame
+  /\ run2 w_o w_cfg w_e unsorted_in_frame = run1 w_o w_cfg w_e (frames_of (cf_max_len w_cfg) (mono unsorted_in_frame))
+  /\ mono k1_split = k1_split.
+Proof. split; [vm_compute; intros H; discriminate H|]. split; vm_compute; reflexivity. Qed.
 
 (* ---- the handler BEFORE the repair (Conn/Sem2Old.v): the known classes, as closed terms ---- *)
 
@@ -174,7 +211,12 @@ Print Assumptions C08_refines_sorted.
 Print Assumptions C08_refines_mod_hang.
 Print Assumptions C08_refines_unless_hang.
 Print Assumptions C08_each_frame_once.
+Print Assumptions C08_run2_mono.
+Print Assumptions C08_refines_all.
+Print Assumptions C08_refines_all_mod_hang.
+Print Assumptions C08_refines_all_unless_hang.
 Print Assumptions C08_transfer.
+Print Assumptions C08_transfer_mod_hang.
 Print Assumptions C08_reader_monoid.
 Print Assumptions C08_segmentation_independent.
 Print Assumptions C08_old_K1_witness.
